@@ -90,9 +90,17 @@ def check(ctx, case):
                 d = (float(q[0]) ** 2 + float(q[1]) ** 2) ** 0.5
                 if abs(d - case["r"]) > 0.07 * case["r"] * (16 / case["nd"]) ** 2 + 1e-6:
                     fails.append(Fail(kind="O", what="piece leaves the original curve", i=i, t=t, impl=d))
+        reduced = any(sg.degree != 2 for sg in J.segments)
+        nseg0 = len(J0.segments)
         rc = I.outcome(lambda: bool(J.clean() == J0))
-        if rc != ("ok", True):
-            ctx.count("circle:clean-not-equal")     # degree-reduced pieces: the property excuses these
+        if reduced:
+            ctx.count("circle:piece-degree-reduced")    # the property excuses these
+        elif rc != ("ok", True) or len(J.segments) != nseg0:
+            fails.append(Fail(kind="O", what="curved split then clean does not give back a curve == the original with the original segmentation",
+                              impl=[rc, len(J.segments)], expected=[("ok", True), nseg0]))
+        r2 = I.outcome(lambda: bool(J0 == J))
+        if not reduced and r2 != ("ok", True):
+            fails.append(Fail(kind="O", what="original == cleaned split curve is not True", impl=r2))
         return fails
     vs, idx, nodes, num = case["vs"], case["idx"], case["nodes"], case["num"]
     exact = num != "float"
